@@ -45,7 +45,7 @@ def _payload(rng):
     return jsonvals.rand_payload(rng, "small")
 
 
-def gen_case(rng, gpg=None, stratum=None):
+def gen_case(rng, gpg=None, stratum=None, force_state=None):
     """returns a case document (JSON-able)"""
     if gpg is None:
         gpg = rng.random() < 0.5
@@ -146,6 +146,9 @@ def gen_case(rng, gpg=None, stratum=None):
         for k in outsiders:
             if rng.random() < 0.3:
                 add(k.hex, rng.choice(vs), k)
+        if rng.random() < 0.2:
+            # a caller's key list that names a key more than once (concatenated from several sources): still the same set of keys
+            extra_auth = [rng.choice(auth).hex for _ in range(rng.randint(1, 2))]
     else:
         filt = stratum.split(":", 1)[1]
         # exactly t-1 valid authorized signers + one entry that would count if the
@@ -171,7 +174,7 @@ def gen_case(rng, gpg=None, stratum=None):
                                                  "hdr_truncated", "hdr_extended", "boundary_shift",
                                                  "raw_sig_with_hdr", "hugehdr_garbage_sig", "alg_sha512_declared_and_used",
                                                  "alg_sha1_declared_and_used", "alg_sha384_declared_and_used")]
-                add(rest[0].hex, rng.choice(cryp), rest[0])
+                add(rest[0].hex, force_state if force_state in ivs else rng.choice(cryp), rest[0])
         elif filt == "shape":
             if not rest:
                 stratum = "sole:threshold"
@@ -179,8 +182,8 @@ def gen_case(rng, gpg=None, stratum=None):
                 shp = [s for s in ivs if s in ("len_minus", "len_plus", "upper", "bare_string",
                                                 "extra_field", "none", "number", "list", "sig_not_str",
                                                 "empty_dict", "gpg_valid_in_raw", "raw_valid_in_gpg",
-                                                "bad_see_also", "hdr_upper", "hdr_odd", "hdr_empty")]
-                add(rest[0].hex, rng.choice(shp), rest[0])
+                                                "bad_see_also", "hdr_upper", "hdr_odd", "hdr_empty", "hdr_hex_whitespace")]
+                add(rest[0].hex, force_state if force_state in ivs else rng.choice(shp), rest[0])
         elif filt == "spelling":
             # valid entry by an authorized key, filed under another spelling of it
             k = rest[0] if rest else (auth[0] if auth else None)
